@@ -33,4 +33,8 @@ def buildStep (s : BuildSt) : Fen.BuildOp → BuildSt × Bool
     | none => ({ s with sq := s.sq.set! q.val (some (c, p)) }, true)
   | .remove q => ({ s with sq := s.sq.set! q.val none }, true)
 
+/-- a whole session on the mailbox -/
+def runBuild (ops : List Fen.BuildOp) : BuildSt × List Bool :=
+  ops.foldl (fun st op => let r := buildStep st.1 op; (r.1, st.2 ++ [r.2])) (BuildSt.init, [])
+
 end Chess.Spec
